@@ -6,7 +6,7 @@
    which code satisfies the clause. *)
 From Coq Require Import Sorting.Sorted Sorting.Permutation.
 From AF Require Import Lib.Bytes Lib.Path Lib.Ops Gen.Consts Model.MemFile Model.ByteFile Model.MemFs Model.BasePath
-  Model.Stack Model.IOFS Model.IOFSRun Proofs.MemFileProof Proofs.IOFSProof.
+  Model.Stack Model.Walk Model.Glob Model.IOFS Model.IOFSRun Proofs.MemFileProof Proofs.IOFSProof Proofs.IOFSGlobProof.
 Local Open Scope Z_scope.
 
 (* 1. io/fs.ValidPath ------------------------------------------------------------------------- *)
@@ -222,6 +222,19 @@ Theorem C15_fromiofs_openfile_ignores_flags : forall St (step : St -> op -> St *
 Proof. exact @fromiofs_openfile_ignores_flags. Qed.
 Print Assumptions C15_fromiofs_openfile_ignores_flags.
 
+(* Glob: malformed patterns ------------------------------------------------------------------------ *)
+(* IOFS.Glob answers a pattern that is malformed at ANY level of Glob's recursion ([glob_accepts] of
+   Model/Glob.v: Match(q, "") reports ErrBadPattern for the pattern or for a directory part Glob recurses
+   into — "[a/b]" passes IOFS.Glob's own path.Match check as a whole, its directory part "[a" does not)
+   with ErrBadPattern and no matches, whatever the inner filesystem is: it is not consulted, the state is
+   untouched.  This is fs.Glob's behaviour; it holds for match.go as it is NOW (Glob checks the pattern
+   first and hasMeta counts the backslash — constants regenerated from match.go on every check, see
+   C16_glob_repo_iff for what the other values do) *)
+Theorem C15_glob_malformed_rejected : forall St (step : St -> op -> St * res) (s : St) (pat : str),
+  glob_accepts pat = false -> iofs_glob step s pat = (s, ([], GBadPattern)).
+Proof. exact @iofs_glob_rejects. Qed.
+Print Assumptions C15_glob_malformed_rejected.
+
 (* non-vacuity: the models compute ------------------------------------------------------------------ *)
 Example C15_ex_valid : map valid_path [[46]; [97]; [97;47;98]; []; [47;97]; [97;47]; [97;47;47;98]; [46;47;97];
                                         [97;47;46;46;47;98]; [46;46]; [97;47;46]; [46;46;46]]%N
@@ -247,3 +260,11 @@ Example C15_ex_readfile :
                                                    TFromMut (Remove [98]%N); TFromReadFile [98]%N]
   = [[RData [120;121]%N None]; [RErr (EW KInvalid)]; [RErr (EW KPermission)]; [RData [120;121]%N None]].
 Proof. vm_compute. reflexivity. Qed.
+
+(* the two former findings, on bp:/(mem) with /b and /a as above: Glob("\\b") finds b (an escape is the only
+   meta character), Glob("[a/b]") is malformed in its directory part; "[a/b]" passes path.Match as a whole *)
+Example C15_ex_glob :
+  io_run_all (SBasePath [47]%N SMem) c15_ex_setup [TBasic (QGlob [92;98]%N); TBasic (QGlob [91;97;47;98;93]%N)]
+  = [[RNames [[98]%N] None]; [io_glob_res ([], GBadPattern)]]
+  /\ match_seg [91;97;47;98;93]%N [] = Some false /\ glob_accepts [91;97;47;98;93]%N = false.
+Proof. repeat split; vm_compute; reflexivity. Qed.
